@@ -32,6 +32,14 @@ Lemma uniform_step_def : forall s k,
 Proof. reflexivity. Qed.
 Print Assumptions uniform_step_def.
 
+Lemma fits_def : forall a b hw, fits a b hw = ((fst hw <= a)%Z /\ (snd hw <= b)%Z).
+Proof. reflexivity. Qed.
+Print Assumptions fits_def.
+
+Lemma moves_def : forall e, moves e = match e with (OpAffine _, true) => true | _ => false end.
+Proof. reflexivity. Qed.
+Print Assumptions moves_def.
+
 (* ======================================================================== *)
 (* (a) exact output sizes                                                    *)
 
